@@ -658,3 +658,202 @@ Theorem document_hypotheses_satisfiable_examples :
   forallb eq_tree_coreb [ex_tree; ex_tree2; k1_tree; k4_tree; nest_tree] = true.
 Proof. exact document_hypotheses_hold_on_examples. Qed.
 Print Assumptions document_hypotheses_satisfiable_examples.
+
+From V Require Import LegalHistParBase LegalHistParWf LegalHistParOracle
+     EngineEquivHistParRun EngineEquivHistParMain EngineEquivHistParWitness.
+
+
+(* ---------------------------------------------------------------------------------------------------------
+   Engine equivalence for documents with a <history> DIRECTLY BELOW A <parallel> (wf_histpb of LegalHistParWf.v;
+   wf_coreb => wf_initb => wf_histb => wf_histpb), same two models, all event histories, all datamodel states, any
+   number of steps (unbounded; the proofs of the wf_histb theorems re-done over the record WFHP and the loop
+   invariant HInvP of LegalHistParEntry.v / LegalHistParFast.v).
+   What is new against the wf_histb theorems (H1)-(H7):
+   * a history child of a <parallel> is never active: the legality used is the one over PROPER states (LegalH /
+     CfgOKH); Large.in_final counts a history child of a <parallel> as final (it does not block done.state),
+     Fast.fpar_done never sees it: the done-event comparison is re-proved over the tree of proper states;
+   * "at most one pseudo-state child of an entered state has its default transition in the transition set" also
+     holds when the entered state is a <parallel> (invariant hip_parh2), so the default transitions executed when
+     a state is entered are the same list (length <= 1) in both engines;
+   * static condition eq_chartb_histp c = wf_histpb && root is a compound && ascb (completion of the root) &&
+     leaf_okb && par_nonemptyb && trans_tableb;
+   * the dynamic guard is UNCHANGED: eq_guard_run_hist / step_guardb_hist / ms_guardb_hist / sel_guardb (they never
+     looked at pseudo-states), so the check keeps evaluating the same extracted function;
+   * no new side condition.
+   Not covered: as before (invocations, delayed sends, charts outside wf_histpb: a transition that names a history
+   of a <parallel> AND a state below one of its regions, C02 history_of_parallel_target_set_needed; C02-K1).
+   --------------------------------------------------------------------------------------------------------- *)
+
+(* (P0) every chart of the wf_histb theorems is a chart of the new ones *)
+Theorem eq_chartb_hist_charts_inside_histp : forall c, eq_chartb_hist c = true -> eq_chartb_histp c = true.
+Proof. exact eq_chartb_hist_histp. Qed.
+Print Assumptions eq_chartb_hist_charts_inside_histp.
+
+(* (P1) ESTABLISH_ENTRYSET after a selection, charts of wf_histpb: fast entry set = large entry set without its
+   <initial> pseudo-states, same transition set (hypotheses as in fast_large_entry_set_equiv_hist) *)
+Theorem fast_large_entry_set_equiv_histp :
+  forall c cfg sel hist ts,
+    wf_histpb c = true -> legal_configb c cfg = true ->
+    (forall ti, In ti sel -> In (ft_source (tr c ti)) cfg) -> pairwise_ok lg_fixed c sel ->
+    HistOK c hist -> ascb ts = true ->
+    fentry_set c cfg (sel_exitset c cfg sel) hist (sel_targets c sel) ts =
+    (no_initial c (fst (entry_set lg_fixed c cfg (sel_exitset c cfg sel) hist (sel_targets c sel) ts)),
+     snd (entry_set lg_fixed c cfg (sel_exitset c cfg sel) hist (sel_targets c sel) ts)).
+Proof. exact fast_large_entry_set_equiv_histp_lemma. Qed.
+Print Assumptions fast_large_entry_set_equiv_histp.
+
+Theorem fast_large_entry_set_equiv_histp_initial :
+  forall c hist,
+    wf_histpb c = true -> fs_type (st c 0) = FCompound -> ascb (fs_completion (st c 0)) = true -> HistOK c hist ->
+    fentry_set c [] [] hist (fs_completion (st c 0)) [] =
+    (no_initial c (fst (entry_set lg_fixed c [] [] hist (fs_completion (st c 0)) [])),
+     snd (entry_set lg_fixed c [] [] hist (fs_completion (st c 0)) [])).
+Proof. exact fast_large_entry_set_equiv_histp_initial_lemma. Qed.
+Print Assumptions fast_large_entry_set_equiv_histp_initial.
+
+Theorem fast_large_entry_set_equiv_histp_literal :
+  forall c cfg sel hist ts,
+    wf_histpb c = true -> legal_configb c cfg = true ->
+    (forall ti, In ti sel -> In (ft_source (tr c ti)) cfg) -> pairwise_ok lg_fixed c sel ->
+    HistOK c hist -> ascb ts = true ->
+    forallb (fun i => negb (is_initialb c i)) (fst (entry_set lg_fixed c cfg (sel_exitset c cfg sel) hist (sel_targets c sel) ts)) = true ->
+    fentry_set c cfg (sel_exitset c cfg sel) hist (sel_targets c sel) ts =
+    entry_set lg_fixed c cfg (sel_exitset c cfg sel) hist (sel_targets c sel) ts.
+Proof. exact fast_large_entry_set_equiv_histp_literal_lemma. Qed.
+Print Assumptions fast_large_entry_set_equiv_histp_literal.
+
+(* (P3) the default transitions executed when state i (compound OR parallel) is entered: same list, at most one *)
+Theorem fast_large_default_transitions_equiv_histp :
+  forall c cfg sel hist i,
+    wf_histpb c = true -> trans_tableb c = true -> legal_configb c cfg = true ->
+    (forall ti, In ti sel -> In (ft_source (tr c ti)) cfg) -> pairwise_ok lg_fixed c sel ->
+    HistOK c hist -> ascb sel = true -> plain_transb c sel = true ->
+    let ts := snd (entry_set lg_fixed c cfg (sel_exitset c cfg sel) hist (sel_targets c sel) sel) in
+    dflt_fast c ts i = dflt_large c ts i /\ length (dflt_fast c ts i) <= 1.
+Proof. exact fast_large_default_transitions_equiv_histp_lemma. Qed.
+Print Assumptions fast_large_default_transitions_equiv_histp.
+
+(* (P4) one microstep from the same selection *)
+Theorem fast_large_microstep_equiv_histp :
+  forall xv c lf ll x sel,
+    wf_histpb c = true -> leaf_okb c = true -> par_nonemptyb c = true -> trans_tableb c = true ->
+    lstate_eqv c lf ll -> legal_configb c (l_cfg ll) = true -> HistOK c (l_hist ll) ->
+    ascb (l_cfg ll) = true -> ascb (l_hist ll) = true ->
+    (forall ti, In ti sel -> In (ft_source (tr c ti)) (l_cfg ll)) -> pairwise_ok lg_fixed c sel -> ascb sel = true ->
+    plain_transb c sel = true ->
+    ms_guardb_hist c ll (sel_targets c sel) (sel_exitset c (l_cfg ll) sel) sel false = true ->
+    lstate_eqv c (fst (fmicrostep xv c lf x (sel_targets c sel) (sel_exitset c (l_cfg ll) sel) sel false))
+                 (fst (microstep lg_fixed xv c ll x (sel_targets c sel) (sel_exitset c (l_cfg ll) sel) sel false)) /\
+    snd (fmicrostep xv c lf x (sel_targets c sel) (sel_exitset c (l_cfg ll) sel) sel false) =
+    snd (microstep lg_fixed xv c ll x (sel_targets c sel) (sel_exitset c (l_cfg ll) sel) sel false).
+Proof. exact fast_large_microstep_equiv_histp_lemma. Qed.
+Print Assumptions fast_large_microstep_equiv_histp.
+
+Theorem fast_large_initial_microstep_equiv_histp :
+  forall xv c lf ll x,
+    eq_chartb_histp c = true -> lstate_eqv c lf ll -> l_cfg ll = [] -> HistOK c (l_hist ll) -> ascb (l_hist ll) = true ->
+    ms_guardb_hist c ll (fs_completion (st c 0)) [] [] true = true ->
+    lstate_eqv c (fst (fmicrostep xv c lf x (fs_completion (st c 0)) [] [] true))
+                 (fst (microstep lg_fixed xv c ll x (fs_completion (st c 0)) [] [] true)) /\
+    snd (fmicrostep xv c lf x (fs_completion (st c 0)) [] [] true) =
+    snd (microstep lg_fixed xv c ll x (fs_completion (st c 0)) [] [] true).
+Proof. exact fast_large_initial_microstep_equiv_histp_lemma. Qed.
+Print Assumptions fast_large_initial_microstep_equiv_histp.
+
+(* (P5) SELECT_TRANSITIONS *)
+Theorem fast_large_select_equiv_histp :
+  forall c cfg ev x,
+    wf_histpb c = true -> trans_tableb c = true -> ascb cfg = true -> (forall s, In s cfg -> s < nstates c) ->
+    sel_guardb c cfg ev (cfg_postfix c cfg) None [] x = true ->
+    fselect c cfg ev (seq 0 (ntrans c)) [] x = select_loop lg_fixed c cfg ev (cfg_postfix c cfg) None [] x.
+Proof. exact fast_large_select_equiv_histp_lemma. Qed.
+Print Assumptions fast_large_select_equiv_histp.
+
+(* (P6) one step() *)
+Theorem fast_large_step_equiv_histp :
+  forall xv c lf ll x,
+    eq_chartb_histp c = true -> lstate_eqv c lf ll -> CfgOKH c ll -> ascb (l_cfg ll) = true -> ascb (l_hist ll) = true ->
+    step_guardb_hist c ll x = true ->
+    res_eqv c (fast_step xv c lf x) (large_step lg_fixed xv c ll x).
+Proof. exact fast_large_step_equiv_histp_lemma. Qed.
+Print Assumptions fast_large_step_equiv_histp.
+
+(* (P7) whole runs from the pristine state, and the observable behaviour of documents *)
+Theorem fast_large_run_equiv_histp :
+  forall xv c fuel evs,
+    eq_chartb_histp c = true -> eq_guard_run_hist xv c fuel l_pristine x_init evs = true ->
+    lstate_eqv c (fst (run_loop c lstate (fast_step xv c) l_cfg fuel l_pristine x_init evs))
+                 (fst (run_loop c lstate (large_step lg_fixed xv c) l_cfg fuel l_pristine x_init evs)) /\
+    snd (run_loop c lstate (fast_step xv c) l_cfg fuel l_pristine x_init evs) =
+    snd (run_loop c lstate (large_step lg_fixed xv c) l_cfg fuel l_pristine x_init evs).
+Proof. exact fast_large_run_equiv_histp_lemma. Qed.
+Print Assumptions fast_large_run_equiv_histp.
+
+Theorem fast_large_trace_equiv_histp :
+  forall xv late t evs fuel,
+    eq_chartb_histp (flatten late t) = true -> eq_guard_run_hist xv (flatten late t) fuel l_pristine x_init evs = true ->
+    run_fast xv late t evs fuel = run_large lg_fixed xv late t evs fuel.
+Proof. exact fast_large_trace_equiv_histp_lemma. Qed.
+Print Assumptions fast_large_trace_equiv_histp.
+
+(* the guard cannot be dropped on these charts: C03-K4 through the deep history of a <parallel>.  Done-family chart
+   with a way out (e4) and back through the history (e3) of <parallel> s3; events e1 e4 e3: s3 s4 s6 s7 s8 are
+   entered in one microstep, when <final> s6 is entered s7 / s8 are not in the configuration yet, the fast engine
+   raises done.state.s3 although region s7 is NOT final, the document's transition on done.state.s3 takes it to
+   s10; the large engine stays in s3.  The guard is true for e1 e4 and false with e3 *)
+Theorem fast_large_run_equiv_histp_without_guard_refuted :
+  let t := ehp_dfh_tree KHistDeep [5; 8]%N in
+  let c := flatten false t in
+  let evs := [[101%N]; [104%N]; [103%N]] in
+  eq_chartb_histp c = true /\ eq_chartb_hist c = false /\
+  eq_guard_run_hist ex_fixed c 40 l_pristine x_init [[101%N]; [104%N]] = true /\
+  eq_guard_run_hist ex_fixed c 40 l_pristine x_init evs = false /\
+  last (cfgs_of (fst (run_fast ex_fixed false t evs 40))) [] = [0; 2; 10]%N /\
+  last (cfgs_of (fst (run_large lg_fixed ex_fixed false t evs 40))) [] = [0; 2; 3; 4; 6; 7; 8]%N /\
+  length (filter (eh_is_ev (s_done_state ++ state_name 3%N)) (fst (run_fast ex_fixed false t evs 40))) = 1 /\
+  length (filter (eh_is_ev (s_done_state ++ state_name 3%N)) (fst (run_large lg_fixed ex_fixed false t evs 40))) = 0.
+Proof. exact run_equiv_histp_without_guard_refuted_lemma. Qed.
+Print Assumptions fast_large_run_equiv_histp_without_guard_refuted.
+
+(* non-vacuity: the done-family charts with a history child of the <parallel> (tools/chart_runs.py
+   done_family(hist='hd' | 'hs'); LegalHistParOracle.done_family_tree): inside eq_chartb_histp, outside
+   eq_chartb_hist; the regions reach their <final>s one after the other, done.state.s3 raised once, taken to s10 *)
+Theorem engine_equiv_histp_done_family_satisfiable :
+  let cd := flatten false (done_family_tree KHistDeep [5; 8]%N) in
+  let cs := flatten false (done_family_tree KHistShallow [4; 7]%N) in
+  eq_chartb_histp cd = true /\ eq_chartb_hist cd = false /\
+  eq_guard_run_hist ex_fixed cd 40 l_pristine x_init [[101%N]; [102%N]] = true /\
+  last (cfgs_of (fst (run_large lg_fixed ex_fixed false (done_family_tree KHistDeep [5; 8]%N) [[101%N]; [102%N]] 40))) [] = [0; 2; 10]%N /\
+  length (filter (eh_is_ev (s_done_state ++ state_name 3%N)) (fst (run_large lg_fixed ex_fixed false (done_family_tree KHistDeep [5; 8]%N) [[101%N]; [102%N]] 40))) = 1 /\
+  eq_chartb_histp cs = true /\ eq_chartb_hist cs = false /\
+  eq_guard_run_hist ex_fixed cs 40 l_pristine x_init [[102%N]; [101%N]] = true /\
+  last (cfgs_of (fst (run_large lg_fixed ex_fixed false (done_family_tree KHistShallow [4; 7]%N) [[102%N]; [101%N]] 40))) [] = [0; 2; 10]%N.
+Proof. exact ehp_done_family_guarded. Qed.
+Print Assumptions engine_equiv_histp_done_family_satisfiable.
+
+Theorem engine_equiv_histp_done_family_engines_agree :
+  run_fast ex_fixed false (done_family_tree KHistDeep [5; 8]%N) [[101%N]; [102%N]] 40 =
+  run_large lg_fixed ex_fixed false (done_family_tree KHistDeep [5; 8]%N) [[101%N]; [102%N]] 40 /\
+  run_fast ex_fixed false (done_family_tree KHistShallow [4; 7]%N) [[102%N]; [101%N]] 40 =
+  run_large lg_fixed ex_fixed false (done_family_tree KHistShallow [4; 7]%N) [[102%N]; [101%N]] 40.
+Proof. exact ehp_done_family_engines_agree. Qed.
+Print Assumptions engine_equiv_histp_done_family_engines_agree.
+
+(* ... and charts on which the histories of <parallel>s are used (default transition with two targets, record,
+   restore): hpp_tree of LegalHistParOracle.v; the done-family chart with a shallow history left and re-entered *)
+Theorem engine_equiv_histp_parallel_histories_used :
+  let c := flatten false hpp_tree in
+  eq_chartb_histp c = true /\ eq_chartb_hist c = false /\
+  eq_guard_run_hist ex_fixed c 60 l_pristine x_init [[102%N]; [101%N]; [102%N]; [101%N]; [101%N]] = true /\
+  last (cfgs_of (fst (run_large lg_fixed ex_fixed false hpp_tree [[102%N]; [101%N]; [102%N]; [101%N]; [101%N]] 60))) [] = [0; 8; 9; 11; 12; 13]%N /\
+  let cs := flatten false (ehp_dfh_tree KHistShallow [4; 7]%N) in
+  eq_chartb_histp cs = true /\
+  eq_guard_run_hist ex_fixed cs 60 l_pristine x_init [[101%N]; [104%N]; [103%N]; [102%N]] = true.
+Proof. exact ehp_hpp_tree_guarded. Qed.
+Print Assumptions engine_equiv_histp_parallel_histories_used.
+
+Theorem engine_equiv_histp_parallel_histories_engines_agree :
+  run_fast ex_fixed false hpp_tree [[102%N]; [101%N]; [102%N]; [101%N]; [101%N]] 60 =
+  run_large lg_fixed ex_fixed false hpp_tree [[102%N]; [101%N]; [102%N]; [101%N]; [101%N]] 60.
+Proof. exact ehp_hpp_tree_engines_agree. Qed.
+Print Assumptions engine_equiv_histp_parallel_histories_engines_agree.
